@@ -241,7 +241,7 @@ variable (env : Env)
 def Acceptable (env : Env) (cwd : String) : Runs → Prop
   | .infoOnly => True
   | .module m' => m' = some "calendar"
-  | .script s _ => env.fileSafe (env.resolve cwd s) = true
+  | .script s _ => scriptRefused s = false ∧ env.fileSafe (env.resolve cwd s) = true
   | _ => False
 
 /-- the decision against the specification: approval only in the three intended situations -/
@@ -287,8 +287,11 @@ theorem decideV_allowed (cwd : String) (o : List String) (m fs : Option String) 
     · simp [Verdict.allowed] at h
     · split at h
       · simp [Verdict.allowed] at h
-      · show env.fileSafe (env.resolve cwd s) = true
-        simpa [Verdict.allowed] using h
+      · show scriptRefused s = false ∧ env.fileSafe (env.resolve cwd s) = true
+        split at h
+        · simp [Verdict.allowed] at h
+        · rename_i hr
+          exact ⟨by simpa using hr, by simpa [Verdict.allowed] using h⟩
 
 /-- an approved python command: by CPython's own argv grammar it prints help/version, runs the calendar
     module, or runs a script whose file – resolved against the command's cwd – passed the analysis -/
@@ -301,6 +304,30 @@ theorem runs_analysed_file (cwd py : String) (l : List String) (h : (classify en
     unfold classify at h
     rw [if_neg hlen] at h
     exact decideV_allowed env cwd _ _ _ _ (spec_holds false (t :: rest)) h
+
+/-- T0 fact: `~` is among the refused prefixes – a script word the shell would tilde-expand is never resolved
+    (against the cwd it would name `<cwd>/~/…`, not the file that runs) -/
+theorem tilde_refused (s : String) (h : scriptRefused s = false) : Py.startsWith s "~" = false := by
+  have hm : "~" ∈ scriptRefusedPrefixes := by decide +kernel
+  cases hs : Py.startsWith s "~" with
+  | false => rfl
+  | true =>
+    have : scriptRefused s = true := by
+      simp only [scriptRefused, List.any_eq_true]
+      exact ⟨"~", hm, hs⟩
+    rw [h] at this; cases this
+
+/-- `python3 ~/tool.py` is never approved, whatever lies at `<cwd>/~/tool.py` -/
+theorem tilde_script_asks (cwd py : String) (l : List String) (s : String) (args : List String)
+    (hr : pythonRuns false l = .script s args) (ht : Py.startsWith s "~" = true) :
+    (classify env cwd (py :: l)).allowed = false := by
+  cases ha : (classify env cwd (py :: l)).allowed with
+  | false => rfl
+  | true =>
+    have := runs_analysed_file env cwd py l ha
+    rw [hr] at this
+    have := tilde_refused s this.1
+    rw [ht] at this; cases this
 
 /-- the only ways to an approval -/
 theorem approval_needs (cwd : String) (o : List String) (m fs : Option String) (h : (decideV env cwd o m fs).allowed = true) :
@@ -315,8 +342,13 @@ theorem approval_needs (cwd : String) (o : List String) (m fs : Option String) (
           · cases fs with
             | none => simp [Verdict.allowed] at h
             | some s =>
-              simp only [Verdict.allowed] at h
-              exact Or.inr (Or.inr ⟨s, rfl, by simp only [h], h⟩)
+              simp only at h ⊢
+              split at h
+              · simp [Verdict.allowed] at h
+              · rename_i hr
+                simp only [Verdict.allowed] at h
+                simp only [hr, Bool.false_eq_true, ↓reduceIte]
+                exact Or.inr (Or.inr ⟨s, rfl, by simp only [h], h⟩)
           · simp [Verdict.allowed] at h
         · simp [Verdict.allowed] at h
       · cases h4 : (m == some "calendar") <;> simp only [h4, Bool.false_eq_true, ↓reduceIte] at h ⊢
@@ -603,16 +635,18 @@ theorem approved_command_runs_checked_script (resolve : String → String → St
       ∧ (∀ n, Desc tree n → localViolations srcTables true n = [])
       ∧ (∀ r ∈ importRoots tree, (facts (resolve cwd s)).shadowed r = false)
       ∧ scriptSuffixes.contains (facts (resolve cwd s)).suffix = true
-      ∧ (∃ sz, (facts (resolve cwd s)).size = some sz ∧ sz ≤ sizeLimit) := by
+      ∧ (∃ sz, (facts (resolve cwd s)).size = some sz ∧ sz ≤ sizeLimit)
+      ∧ Py.startsWith s "~" = false := by
   have hrun := runs_analysed_file (fileEnv resolve facts) cwd py l h
   rw [hr] at hrun
-  have hsafe : (analyzeFile srcTables scriptSuffixes sizeLimit cookieNameChar (facts (resolve cwd s))).isSafe = true := hrun
+  have hsafe : (analyzeFile srcTables scriptSuffixes sizeLimit cookieNameChar (facts (resolve cwd s))).isSafe = true := hrun.2
+  have htilde : Py.startsWith s "~" = false := tilde_refused s hrun.1
   have hs : analyzeFile srcTables scriptSuffixes sizeLimit cookieNameChar (facts (resolve cwd s)) = .safe := by
     cases hv : analyzeFile srcTables scriptSuffixes sizeLimit cookieNameChar (facts (resolve cwd s)) with
     | safe => rfl
     | refused r => rw [hv] at hsafe; cases hsafe
   obtain ⟨_, _, hsuf, hsz, src, tree, _, _, htree, hvis, hsh⟩ := safe_means _ _ _ _ _ hs
-  exact ⟨tree, htree, hvis, fun n hd => approved_covers tree n hvis hd, hsh, hsuf, hsz⟩
+  exact ⟨tree, htree, hvis, fun n hd => approved_covers tree n hvis hd, hsh, hsuf, hsz, htilde⟩
 
 /-- non-vacuity of the file model: a small safe script next to nothing … -/
 example :
